@@ -22,7 +22,8 @@ EXPLANATION = (
     'an iteration that modified nothing, and the true branch of every time/stop test can only return false; (3) by exhaustive '
     'constant evaluation over the 8-bit state domain, getMateInN / getMatedInN / isDraw are pairwise disjoint and false on '
     'INVALID, UNINITIALIZED, UNKNOWN and every REMAINING_N, and get(set(n)) == n; (4) the reserved region is large enough for the '
-    'largest table the men guard admits, aligned to slots and buckets, guarded by the size test, and placed at the top of the table.')
+    'largest table the men guard admits, aligned to slots and buckets, guarded by the size test, and placed at the top of the table.'
+    ' (5) probeDTM answers only for positions without castling rights (the castle mask is tested in the probe or in the position import it requires).')
 UNDECIDED = 'exactness of the distance-to-mate values themselves (retrograde analysis over millions of positions is value-level).'
 ASSUMPTIONS = ['8-bit two\'s complement storage of PositionValue::State (S8)',
                'TBPosition index arithmetic (20*64^(N-1) positions) is read from the constructor\'s constants']
